@@ -64,3 +64,57 @@ fn n_elf_sections_tag_layout() {
     assert_eq!((tag.number_of_sections(), tag.entry_size(), tag.shndx()), (0, 0x2222_2222, 0x3333_3333));
     std::println!("n_elf_sections_tag_layout: {} cases", cases + 1);
 }
+
+// ---------------------------------------------------------------------------------
+// BOUNDED NATIVE STAND-IN for C19 "names resolve through the string-table entry the tag
+// designates": `ElfSection::name()` dereferences the address stored in the designated entry
+// (memory outside the tag: outside the Verus memory model, and Kani loses the object of an
+// integer-to-pointer cast).  Real string table in memory, ELF64 entries, string-table index 0
+// and 2, name offsets 0 .. 131000 (beyond 16 bits), names of several lengths.
+// ---------------------------------------------------------------------------------
+#[test]
+fn n_elf_section_names() {
+    let mut table = std::vec![b'x'; 131072];
+    // NUL terminators every 16 bytes, distinct names at selected offsets
+    for i in (15..table.len()).step_by(16) {
+        table[i] = 0;
+    }
+    let offsets: [usize; 10] = [0, 16, 240, 256, 65520, 65536, 65552, 70000 / 16 * 16, 131040, 131056];
+    for (k, &o) in offsets.iter().enumerate() {
+        let name = std::format!(".n{:05x}_{}", o, k);
+        table[o..o + name.len()].copy_from_slice(name.as_bytes());
+        table[o + name.len()] = 0;
+    }
+    let mut cases = 0u32;
+    for shndx in [0u32, 2] {
+        for (k, &o) in offsets.iter().enumerate() {
+            let mut buf = Aligned([0u8; 256]);
+            let b = &mut buf.0;
+            let size = 20 + 3 * 64;
+            b[0..4].copy_from_slice(&9u32.to_le_bytes());
+            b[4..8].copy_from_slice(&(size as u32).to_le_bytes());
+            b[8..12].copy_from_slice(&3u32.to_le_bytes());
+            b[12..16].copy_from_slice(&64u32.to_le_bytes());
+            b[16..20].copy_from_slice(&shndx.to_le_bytes());
+            for e in 0..3usize {
+                let at = 20 + e * 64;
+                b[at + 4..at + 8].copy_from_slice(&1u32.to_le_bytes()); // in use
+                // decoy address in the entries that are NOT the string table
+                b[at + 16..at + 24].copy_from_slice(&(0xdead_0000u64 + e as u64).to_le_bytes());
+            }
+            // the designated entry's sh_addr is the string table
+            let st = 20 + shndx as usize * 64;
+            b[st + 16..st + 24].copy_from_slice(&(table.as_ptr() as u64).to_le_bytes());
+            // entry 1 carries the name offset under test
+            b[20 + 64..20 + 64 + 4].copy_from_slice(&(o as u32).to_le_bytes());
+            let generic = DynSizedStructure::<TagHeader>::ref_from_slice(&b[..216]).unwrap();
+            let tag = generic.cast::<ElfSectionsTag>();
+            let secs: Vec<_> = tag.sections().collect();
+            assert_eq!(secs.len(), 3);
+            let want = std::format!(".n{:05x}_{}", o, k);
+            assert_eq!(secs[1].name(), Ok(want.as_str()), "name at offset {o:#x} through string-table entry {shndx}");
+            cases += 1;
+        }
+    }
+    std::println!("n_elf_section_names: {cases} cases");
+}
